@@ -23,7 +23,7 @@ one canonical form of constructs that maintainers routinely rewrite into each ot
   S7  T i = a; while (c(i)) { body; ++i; } (no continue, i dead afterwards) -> for (T i = a; c(i); ++i) body
   S4  a void function body / a loop body that ends with `if (a && b) { X }` -> `if (!a) return / continue; if (!b) ...; X` (guard-clause form)
   S8  if (a > b) a = b; -> a = min(a, b); if (a < b) a = b; -> a = max(a, b)   (integers)
-  E11 x * 2^K -> x << K, unsigned x / 2^K -> x >> K, unsigned x % 2^K -> x & (2^K - 1) ;  E12 2 * i -> i * 2 ;  E15 const integral local initialised with a literal / named constant reads as that value ;  E14 !(a && b) -> !a || !b ;  E13 X.empty() -> X.size() == 0 (std containers) ;  S13b if (c) f |= v; -> f |= c ? v : 0 ;  S16 T x; x = e; -> T x = e ;  S15 pointer cursor over [B, B+N) -> index loop over B ;  S10 if (c) x = a; else x = b; -> x = c ? a : b ;  S13 if (c) b = true; -> b |= c ; if (c) b = false; -> b &= !c  (bool b)
+  E11 x * 2^K -> x << K, unsigned x / 2^K -> x >> K, unsigned x % 2^K -> x & (2^K - 1) ;  E12 2 * i -> i * 2 ;  E15 const integral local initialised with a literal / named constant reads as that value ;  E14 !(a && b) -> !a || !b ;  E13 X.empty() -> X.size() == 0 (std containers) ;  S13b if (c) f |= v; -> f |= c ? v : 0 ;  S16 T x; x = e; -> T x = e ;  S17 T x = a; x |= b; -> T x = a | b ;  S15 pointer cursor over [B, B+N) -> index loop over B ;  S10 if (c) x = a; else x = b; -> x = c ? a : b ;  S13 if (c) b = true; -> b |= c ; if (c) b = false; -> b &= !c  (bool b)
   S14 `T x = a; if (c) x = b;` -> `T x = c ? b : a;`   (a a plain read)
   S12 `if (ok) return; throw X;` at the end of a void function -> `if (!ok) throw X;`
   S5  `while (c) body` and `for (; c; ) body` are both exported as For nodes with empty init / increment
@@ -810,8 +810,21 @@ def _decl_then_assign(stmts):
                     and _strip(a["l"]).get("d") == v["d"] and not _refs_to(a["r"], v["d"]) and not v.get("ref"):
                 v2 = dict(v)
                 v2["init"] = a["r"]
-                out.append(dict(s, vars=[v2]))
-                i += 2
+                stmts = stmts[:i] + [dict(s, vars=[v2])] + stmts[i + 2:]
+                continue
+        # S17: `T x = a; x |= b;` -> `T x = a | b;`   (integer x built up in consecutive statements; b pure and not reading x): a flags
+        # byte assembled step by step is the one expression
+        if isinstance(s, dict) and s.get("k") == "Decl" and len(s.get("vars", [])) == 1 and "d" in s["vars"][0] and s["vars"][0].get("init") is not None \
+                and isinstance(nxt, dict) and nxt.get("k") == "Expr":
+            v = s["vars"][0]
+            a = _strip(nxt.get("e"))
+            t = (v.get("t") or "")
+            if isinstance(a, dict) and a.get("k") == "Assign" and a.get("op") in ("|=", "&=", "^=", "+=") and isinstance(_strip(a.get("l")), dict) and _strip(a["l"]).get("k") == "Ref" \
+                    and _strip(a["l"]).get("d") == v["d"] and not _refs_to(a["r"], v["d"]) and not v.get("ref") and "*" not in t and not _is_float(v) \
+                    and any(x in t for x in ("char", "short", "int", "long")) and _pure_value(a["r"]) and _pure_value(v["init"]):
+                v2 = dict(v)
+                v2["init"] = norm_expr({"k": "Bin", "op": a["op"][:-1], "l": v["init"], "r": a["r"], "t": a.get("t") or v.get("t"), "sz": v.get("sz"), "loc": a.get("loc"), "synth": True})
+                stmts = stmts[:i] + [dict(s, vars=[v2])] + stmts[i + 2:]
                 continue
         out.append(s)
         i += 1
